@@ -17,7 +17,9 @@ LEVEL = "fault_enumeration"
 RULE = ("(crash, exhaustive) for two writers - SimpleProcessTensor.export and a file-backed PT-TEMPO run, N=3 (quick) / 3, 4, 6 "
         "and an 8-step export with 64x64x4x4 tensors (1 MB each, so HDF5 flushes by itself; thorough) steps - a child process is made to die after EVERY file operation (after each tensor write incl. the "
         "initial-tensor write at creation, each MPO tensor, each cap, and at entry of close) in each of four crash modes "
-        "(SIGKILL, os._exit, unhandled exception followed by normal interpreter shutdown, SIGKILL after an HDF5 flush); the "
+        "(SIGKILL, os._exit, unhandled exception followed by normal interpreter shutdown, SIGKILL after an HDF5 flush); in "
+        "the two modes that leave flushed data the writer additionally assigns name and description of the open file object "
+        "after an early, a middle or the last write before dying at or after that point; the "
         "file is then opened with import_process_tensor as 'file' and 'simple'. Oracle: the reader raises or warns 'may be "
         "corrupt' - it never returns an object silently; an uninterrupted writer leaves a file that opens without that "
         "warning and with complete content. (modes) Hypothesis-generated sequences of create(write|overwrite)/read/remove "
@@ -36,9 +38,9 @@ MODES = ["kill", "_exit", "exc", "flushkill"]
 WRITER = os.path.join(VERIF_DIR, "vlib", "crash_writer.py")
 
 
-def _run_writer(fn, writer, mode, k, N):
+def _run_writer(fn, writer, mode, k, N, rename_at=0):
     env = dict(os.environ, PYTHONHASHSEED="0")
-    return subprocess.run([sys.executable, WRITER, REPO_DIR, fn, writer, mode, str(k), str(N)],
+    return subprocess.run([sys.executable, WRITER, REPO_DIR, fn, writer, mode, str(k), str(N), str(rename_at)],
                           capture_output=True, text=True, env=env, timeout=300)
 
 
@@ -71,6 +73,14 @@ def crash_cases(tier):
                 for k in list(range(1, n + 1)) + [-1]:
                     cases.append({"writer": writer, "N": N, "mode": mode, "k": k, "ops": n})
             cases.append({"writer": writer, "N": N, "mode": "none", "k": 0, "ops": n})
+            # a metadata update (name, description) on the file while it is being written, then a death that leaves
+            # flushed data behind; and the uninterrupted run with such an update
+            if N < 100:
+                for mode in ("exc", "flushkill"):
+                    for r_at in sorted({1, max(1, n // 2), n}):
+                        for k in sorted({r_at, min(n, r_at + 1), n}) + [-1]:
+                            cases.append({"writer": writer, "N": N, "mode": mode, "k": k, "ops": n, "rename_at": r_at})
+                cases.append({"writer": writer, "N": N, "mode": "none", "k": 0, "ops": n, "rename_at": max(1, n // 2)})
     return cases
 
 
@@ -104,9 +114,11 @@ def run_crash(case):
     tmp = tempfile.mkdtemp(prefix="verif_c17_")
     try:
         fn = os.path.join(tmp, "pt.hdf5")
-        r = _run_writer(fn, case["writer"], case["mode"], case["k"], case["N"])
+        r = _run_writer(fn, case["writer"], case["mode"], case["k"], case["N"], case.get("rename_at", 0))
         mode, k = case["mode"], case["k"]
         out.label("writer=" + case["writer"], "mode=" + mode)
+        if case.get("rename_at"):
+            out.label("name-assigned-while-writing")
         if mode == "none":
             if r.returncode != 0:
                 raise HarnessError(f"uninterrupted writer failed: {r.stderr[-500:]}")
@@ -130,7 +142,9 @@ def run_crash(case):
             status, exc, info = _read(fn, typ)
             out.label("reader-" + status)
             if status == "silent":
-                out.fail(f"silently-opened:{mode}", f"writer={case['writer']} crash after op {k} of {case['ops']} ({mode}): "
+                out.fail(f"silently-opened:{mode}" + (":after-name-assignment" if case.get("rename_at") else ""),
+                         f"writer={case['writer']} crash after op {k} of {case['ops']} ({mode}"
+                         + (f", name/description assigned after op {case['rename_at']}" if case.get("rename_at") else "") + "): "
                          f"import '{typ}' returned an object without warning, (len, caps present) = {info}")
         return out
     finally:
